@@ -102,9 +102,39 @@ def _near_angle_cases():
                "idle": [], "part": [0, 1], "form": "dict" if i % 3 else "single", "N": None, "seed": 0, "always_oracle": True}
 
 
+def _product_gate_cases():
+    """the cut gate is an "arbitrary two-qubit unitary" WITHOUT non-local content: a UnitaryGate whose matrix is a tensor product of two
+    one-qubit unitaries (Haar-random factors, a layer of rx/ry/rz rotations, with and without a global phase) - the degenerate corner
+    (0,0,0) of the Weyl chamber on the generic (KAK) route, where the local factors K1, K2 are all there is.  Entangling gates before and
+    after it inside the partitions and generic one-qubit gates around it, so that every factor matters; both operand orders, both call
+    forms, alone and next to a second (entangling) cut.  Seed independent."""
+    import random
+    r = random.Random(20241001)
+    spec = [([5, 6], [1, 2], "dict", False), ([11, 12], [2, 1], "single", False), ([[0.7, 1.1, 0.4], [-0.3, 0.9, 1.6]], [1, 2], "single", False),
+            ([21, 22, 0.9], [2, 1], "dict", False), ([31, 32], [1, 2], "dict", True), ([[1.2, 0.0, -0.8], 42, -0.4], [2, 1], "single", True)]
+    for i, (ps, qs, form, second) in enumerate(spec):
+        instrs = [{"name": "unitary", "qubits": [0, 1], "params": [700 + i, 2]}, {"name": "unitary", "qubits": [2], "params": [710 + i, 1]},
+                  {"name": "unitary_kron", "qubits": qs, "params": ps}]
+        if second:
+            instrs += [{"name": "ry", "qubits": [2], "params": [0.6]}, {"name": "crx", "qubits": [2, 1], "params": [1.3]}]
+        instrs += [{"name": "unitary", "qubits": [0, 1], "params": [720 + i, 2]}, {"name": "unitary", "qubits": [2], "params": [730 + i, 1]}]
+        yield {"nq": 3, "qregs": [3], "instrs": instrs, "labels": [0, 0, 1], "pool_idx": r.sample(range(len(workflow.gen.LABEL_POOL)), 2),
+               "obs": [{"l": "ZZZ", "p": 0}, {"l": "XIY", "p": 0}, {"l": "IZX", "p": 0}, {"l": "YYI", "p": 0}, {"l": "III", "p": 0}, {"l": "ZXZ", "p": 0}],
+               "idle": [], "part": [0, 0, 1], "form": form, "N": None, "seed": 0, "always_oracle": True}
+    # two qubits, one partition each: the product gate is the only two-qubit gate
+    for i, (ps, qs, form) in enumerate([([51, 52], [0, 1], "dict"), ([[0.5, -1.2, 2.0], [1.4, 0.3, -0.7], 1.1], [1, 0], "single")]):
+        instrs = [{"name": "unitary", "qubits": [0], "params": [740 + i, 1]}, {"name": "unitary", "qubits": [1], "params": [750 + i, 1]},
+                  {"name": "unitary_kron", "qubits": qs, "params": ps},
+                  {"name": "unitary", "qubits": [0], "params": [760 + i, 1]}, {"name": "unitary", "qubits": [1], "params": [770 + i, 1]}]
+        yield {"nq": 2, "qregs": [2], "instrs": instrs, "labels": [0, 1], "pool_idx": r.sample(range(len(workflow.gen.LABEL_POOL)), 2),
+               "obs": [{"l": "ZZ", "p": 0}, {"l": "XI", "p": 0}, {"l": "IY", "p": 0}, {"l": "YX", "p": 0}, {"l": "ZI", "p": 0}],
+               "idle": [], "part": [0, 1], "form": form, "N": None, "seed": 0, "always_oracle": True}
+
+
 def cases(rng, tier):
     N = 60 if tier == "quick" else 700
     yield from (("roundtrip", p) for p in _near_angle_cases())
+    yield from (("roundtrip", p) for p in _product_gate_cases())
     asym = [("cx", None), ("cy", None), ("ch", None), ("ecr", None), ("dcx", None), ("csx", None), ("crx", [0.8]), ("cry", [1.3]),
             ("crz", [2.1]), ("unitary", [5, 2]), ("rzx", [0.9])]
     # three weak cuts: most joint maps have probability between 1e-14 and 1e-8; dropping them shifts the values by several 1e-7
